@@ -8,8 +8,9 @@ name-level theorems (namespace `NetVerif.Proofs.C36`; the message level is in `P
 Name level (where compression lives): `Name.pack` followed by `Name.unpack` is the identity on
 canonical names without compression, and with compression under the invariant "every map entry
 points at an offset where unpacking yields that suffix" — up to the pointer budget of
-`Name.unpack`: the packer happily builds pointer chains longer than 10 (finding `ptr-depth`),
-so the full statement is false (`seq_full_false`) and what holds is `seq_holds_partial`.
+`Name.unpack`, which `Name.pack` respects since the `ptr-depth` repair (`compressionDepth`): the
+invariant also says that every stored suffix is at most 10 pointers deep, so the full statement
+holds (`seq_holds`).
 Message level: header, question and resource-header round trips.
 -/
 namespace NetVerif.Proofs.C36
@@ -23,7 +24,8 @@ theorem gen_constants_eq :
     Gen.C36.typeOPT = typeOPT ∧ Gen.C36.typeSVCB = typeSVCB ∧ Gen.C36.typeHTTPS = typeHTTPS ∧
     Gen.C36.headerLen = headerLen ∧ Gen.C36.nonEncodedNameMax = nameMax ∧
     Gen.C36.ptrLimit = ptrLimit ∧ Gen.C36.segLimit = segLimit ∧ Gen.C36.maxPtr = maxPtr ∧
-    Gen.C36.textMax = textMax ∧ Gen.C36.uint16Len = 2 ∧ Gen.C36.uint32Len = 4 := by
+    Gen.C36.textMax = textMax ∧ Gen.C36.uint16Len = 2 ∧ Gen.C36.uint32Len = 4 ∧
+    Gen.C36.packChecksDepth = true := by
   decide
 
 /-- T-tie: the type switch of `unpackResourceBody` has exactly the model's cases. -/
@@ -131,7 +133,7 @@ theorem fin_textOf {ls : List Bytes} (hne : ls ≠ []) (hok : LabelsOK ls) : fin
 
 /-- `packName` on the presentation form of a label list is the pack loop. -/
 theorem packName_textOf {ls : List Bytes} (hne : ls ≠ []) (hok : LabelsOK ls)
-    (hlen : (textOf ls).length ≤ 254) (pos : Nat) (comp : Option CompMap) :
+    (hlen : (textOf ls).length ≤ 254) (pos : Bytes) (comp : Option CompMap) :
     packName (textOf ls) pos comp = packLoop pos (textOf ls) [] [] comp := by
   have h2 := textOf_length_ge hne hok
   have h1 : ¬ (textOf ls).length > 254 := by omega
@@ -173,7 +175,7 @@ theorem decodes_enc : ∀ (ls : List Bytes) (pre tail : Bytes), LabelsOK ls →
 /-- **Name round trip, no compression** (Builder without `EnableCompression`, SRV/SVCB targets):
 a canonical name packs, and unpacking the packed bytes - wherever they sit in a message - returns
 the name and the offset just after it. -/
-theorem name_roundtrip_nocomp (n : Bytes) (pos : Nat) (hc : Canonical n) :
+theorem name_roundtrip_nocomp (n : Bytes) (pos : Bytes) (hc : Canonical n) :
     ∃ bs, packName n pos none = .ok (bs, none) ∧
       ∀ pre post, unpackName (pre ++ bs ++ post) pre.length = .ok (n, pre.length + bs.length) := by
   rcases hc with ⟨hlen, hroot | ⟨ls, hne, hok, rfl⟩⟩
@@ -192,31 +194,27 @@ theorem name_roundtrip_nocomp (n : Bytes) (pos : Nat) (hc : Canonical n) :
       simp; omega
 
 /-- **Name round trip with compression.** If every entry of the compression map points at an
-offset of `msg` where unpacking yields that suffix (`CompInv`), then packing a canonical name at
-the end of `msg` succeeds, keeps the invariant for the extended message, and the packed name
-decodes to the same name following some number `d` of pointers: `Name.unpack` returns the name
-(and the offset after the packed bytes) when `d ≤ 10` and `errTooManyPtr` otherwise. -/
+offset of `msg` where unpacking yields that suffix within the pointer budget (`CompInv`), then
+packing a canonical name at the end of `msg` succeeds, keeps the invariant for the extended
+message, and `Name.unpack` of the packed bytes returns the name and the offset after them. -/
 theorem name_roundtrip_comp (msg : Bytes) (m : CompMap) (n : Bytes)
     (hinv : CompInv msg m) (hc : Canonical n) :
-    ∃ bs m' d, packName n msg.length (some m) = .ok (bs, some m') ∧
+    ∃ bs m', packName n msg (some m) = .ok (bs, some m') ∧
       CompInv (msg ++ bs) m' ∧
-      ∀ post, unpackName (msg ++ bs ++ post) msg.length =
-        if d ≤ 10 then .ok (n, msg.length + bs.length) else .error .tooManyPtr := by
+      ∀ post, unpackName (msg ++ bs ++ post) msg.length = .ok (n, msg.length + bs.length) := by
   rcases hc with ⟨hlen, hroot | ⟨ls, hne, hok, rfl⟩⟩
   · subst hroot
-    refine ⟨[0], m, 0, by simp [packName], hinv.append _, ?_⟩
+    refine ⟨[0], m, by simp [packName], hinv.append _, ?_⟩
     intro post
     have hd := @Decodes.nil (msg ++ [0] ++ post) msg.length post (by simp)
     have := decodes_unpackName hd (by simp [textOf]) (by omega)
     simpa [textOf, fin] using this
-  · rcases packLabels_compInv msg ls m hok hinv with ⟨hinv', d, hd⟩
-    refine ⟨(packLabels msg.length ls [] m).1, (packLabels msg.length ls [] m).2, d, ?_, hinv', ?_⟩
-    · rw [packName_textOf hne hok hlen, packLoop_labels_some msg.length ls [] m hok]
+  · rcases packLabels_compInv msg ls m hok hlen hinv with ⟨hinv', d, h10, hd⟩
+    refine ⟨(packLabels msg ls [] m).1, (packLabels msg ls [] m).2, ?_, hinv', ?_⟩
+    · rw [packName_textOf hne hok hlen, packLoop_labels_some msg ls [] m hok]
     · intro post
       have hd' := hd.append post
-      by_cases h10 : d ≤ 10
-      · rw [decodes_unpackName hd' hlen h10, fin_textOf hne hok]; simp [h10]
-      · rw [decodes_unpackName_deep hd' hlen (by omega)]; simp [h10]
+      rw [decodes_unpackName hd' hlen h10, fin_textOf hne hok]
 
 /-! ## A sequence of names sharing one compression map, with arbitrary bytes in between
 (what `Message.Pack` / the Builder with compression do with all the names of a message) -/
@@ -227,7 +225,7 @@ and the offset of every name. -/
 def packSeq : List (Bytes × Bytes) → Bytes → CompMap → Except Err (Bytes × List Nat)
   | [], msg, _ => .ok (msg, [])
   | (gap, n) :: r, msg, m =>
-    match packName n (msg ++ gap).length (some m) with
+    match packName n (msg ++ gap) (some m) with
     | .ok (bs, some m') =>
       match packSeq r (msg ++ gap ++ bs) m' with
       | .ok (final, starts) => .ok (final, (msg ++ gap).length :: starts)
@@ -235,8 +233,8 @@ def packSeq : List (Bytes × Bytes) → Bytes → CompMap → Except Err (Bytes 
     | .ok (_, none) => .error .fuel
     | .error e => .error e
 
-/-- C36 for names, full strength: every name of the sequence unpacks to itself. FALSE for the
-code as it is (`seq_full_false`). -/
+/-- C36 for names, full strength: every name of the sequence unpacks to itself
+("name compression never changes the decoded names"). -/
 def SeqStatement : Prop :=
   ∀ (l : List (Bytes × Bytes)), (∀ p ∈ l, Canonical p.2) →
     ∀ final starts, packSeq l [] [] = .ok (final, starts) →
@@ -246,8 +244,7 @@ theorem packSeq_sound : ∀ (l : List (Bytes × Bytes)) (msg : Bytes) (m : CompM
     CompInv msg m → (∀ p ∈ l, Canonical p.2) →
     ∀ final starts, packSeq l msg m = .ok (final, starts) →
       (∃ ext, final = msg ++ ext) ∧
-      ∀ q ∈ (l.map Prod.snd).zip starts,
-        (∃ o, unpackName final q.2 = .ok (q.1, o)) ∨ unpackName final q.2 = .error .tooManyPtr := by
+      ∀ q ∈ (l.map Prod.snd).zip starts, ∃ o, unpackName final q.2 = .ok (q.1, o) := by
   intro l
   induction l with
   | nil =>
@@ -258,7 +255,7 @@ theorem packSeq_sound : ∀ (l : List (Bytes × Bytes)) (msg : Bytes) (m : CompM
     intro msg m hinv hcan final starts h
     rcases p with ⟨gap, n⟩
     have hc : Canonical n := hcan (gap, n) (by simp)
-    rcases name_roundtrip_comp (msg ++ gap) m n (hinv.append gap) hc with ⟨bs, m', d, hp, hinv', hun⟩
+    rcases name_roundtrip_comp (msg ++ gap) m n (hinv.append gap) hc with ⟨bs, m', hp, hinv', hun⟩
     rw [packSeq, hp] at h
     simp only [] at h
     cases hrec : packSeq r (msg ++ gap ++ bs) m' with
@@ -277,39 +274,18 @@ theorem packSeq_sound : ∀ (l : List (Bytes × Bytes)) (msg : Bytes) (m : CompM
       · subst hq
         have := hun ext
         rw [← hext] at this
-        simp only []
-        by_cases h10 : d ≤ 10
-        · left; exact ⟨(msg ++ gap).length + bs.length, by rw [this]; simp [h10]⟩
-        · right; rw [this]; simp [h10]
+        exact ⟨_, this⟩
       · exact hrest q hq
 
-/-- What holds: every name of the sequence unpacks to itself, or `Name.unpack` gives up with
-`errTooManyPtr` (the excluded region, decidable on the packed bytes). -/
-theorem seq_holds_partial (l : List (Bytes × Bytes)) (hcan : ∀ p ∈ l, Canonical p.2)
-    (final : Bytes) (starts : List Nat) (h : packSeq l [] [] = .ok (final, starts)) :
-    ∀ q ∈ (l.map Prod.snd).zip starts,
-      (∃ o, unpackName final q.2 = .ok (q.1, o)) ∨ unpackName final q.2 = .error .tooManyPtr :=
+/-- **Name compression never changes the decoded names**: every name of a sequence packed with a
+shared compression map, with arbitrary other bytes in between, unpacks to itself. -/
+theorem seq_holds : SeqStatement := fun l hcan final starts h =>
   (packSeq_sound l [] [] (compInv_nil _) hcan final starts h).2
 
-/-- Witness for the finding: "a.", "a.a.", …, twelve names each one label longer than the
-previous one. `Name.pack` emits each as one label plus a pointer to the previous name. -/
+/-- The old witness of finding `ptr-depth`: "a.", "a.a.", …, twelve names each one label longer
+than the previous one. -/
 def deepNames : List (Bytes × Bytes) :=
   (List.range 12).map (fun k => (([] : Bytes), textOf (List.replicate (k + 1) [97])))
-
-def deepPacked : Bytes :=
-  [1, 97, 0, 1, 97, 192, 0, 1, 97, 192, 3, 1, 97, 192, 7, 1, 97, 192, 11, 1, 97, 192, 15, 1, 97, 192, 19,
-   1, 97, 192, 23, 1, 97, 192, 27, 1, 97, 192, 31, 1, 97, 192, 35, 1, 97, 192, 39]
-
-theorem deepNames_packs :
-    packSeq deepNames [] [] = .ok (deepPacked, [0, 3, 7, 11, 15, 19, 23, 27, 31, 35, 39, 43]) := by
-  decide
-
-/-- the eleventh name still unpacks (10 pointers) … -/
-theorem deepNames_11_ok :
-    unpackName deepPacked 39 = .ok (textOf (List.replicate 11 [97]), 43) := by decide
-
-/-- … the twelfth does not. -/
-theorem deepNames_12_fails : unpackName deepPacked 43 = .error .tooManyPtr := by decide
 
 theorem deepNames_canonical : ∀ p ∈ deepNames, Canonical p.2 := by
   intro p hp
@@ -327,13 +303,21 @@ theorem deepNames_canonical : ∀ p ∈ deepNames, Canonical p.2 := by
     | succ j ih => simp [List.replicate_succ, textOf, ih]; omega
   refine ⟨by simp only [hlen]; omega, Or.inr ⟨_, by simp, hok, rfl⟩⟩
 
-/-- **Finding `ptr-depth`**: the full statement is false for the code as it is. -/
-theorem seq_full_false : ¬ SeqStatement := by
-  intro h
-  have := h deepNames deepNames_canonical _ _ deepNames_packs
-    (textOf (List.replicate 12 [97]), 43) (by decide)
-  rcases this with ⟨o, ho⟩
-  rw [deepNames_12_fails] at ho
-  cases ho
+/-- the repaired packer stops compressing at depth 10: the twelfth name is written as two labels
+and a pointer to the tenth name … -/
+def deepPacked : Bytes :=
+  [1, 97, 0, 1, 97, 192, 0, 1, 97, 192, 3, 1, 97, 192, 7, 1, 97, 192, 11, 1, 97, 192, 15, 1, 97, 192, 19,
+   1, 97, 192, 23, 1, 97, 192, 27, 1, 97, 192, 31, 1, 97, 192, 35, 1, 97, 1, 97, 192, 35]
+
+theorem deepNames_packs :
+    packSeq deepNames [] [] = .ok (deepPacked, [0, 3, 7, 11, 15, 19, 23, 27, 31, 35, 39, 43]) := by
+  decide
+
+/-- … and unpacks (the old witness now satisfies the statement). -/
+example : unpackName deepPacked 43 = .ok (textOf (List.replicate 12 [97]), 49) := by decide
+
+example : ∀ q ∈ (deepNames.map Prod.snd).zip [0, 3, 7, 11, 15, 19, 23, 27, 31, 35, 39, 43],
+    ∃ o, unpackName deepPacked q.2 = .ok (q.1, o) :=
+  seq_holds deepNames deepNames_canonical _ _ deepNames_packs
 
 end NetVerif.Proofs.C36
